@@ -9,6 +9,9 @@ if [ "$(id -u)" = 0 ]; then
   command -v setpriv >/dev/null || { echo "setpriv not available; cannot test as root"; exit 0; }
   chmod 755 "$P"; chown 65534:65534 "$P"
   N="setpriv --reuid=65534 --regid=65534 --clear-groups env HOME=$P"
+  # the unprivileged user must be able to run the binaries and reach the project
+  $N redo --version >/dev/null 2>&1 || { echo "user nobody cannot run $BIN/redo here; skipped"; exit 0; }
+  $N sh -c 'cd "$0"' "$P" 2>/dev/null || { echo "user nobody cannot reach $P; skipped"; exit 0; }
 else N=""; fi
 $N sh -c 'mkdir ro; echo "echo out-\$1" > default.do'
 timeout 30 $N redo ro/x > out0 2>&1 </dev/null; echo "first build: exit $?  ro/x=[$(cat ro/x)]"
